@@ -27,6 +27,7 @@ import (
 	"github.com/ipfs/ipfs-cluster/api/ipfsproxy"
 
 	cid "github.com/ipfs/go-cid"
+	host "github.com/libp2p/go-libp2p-core/host"
 	peer "github.com/libp2p/go-libp2p-core/peer"
 	rpc "github.com/libp2p/go-libp2p-gorpc"
 	ma "github.com/multiformats/go-multiaddr"
@@ -317,9 +318,14 @@ func (s *trackerSvc) Status(ctx context.Context, in cid.Cid, out *api.PinInfo) e
 	return s.r.add(rcall{Svc: "PinTracker", Method: "Status", Cid: cidStr(in)}, nil)
 }
 
+// rpcHost, when set, is the libp2p host the rigs' RPC client and server are
+// built on: calls addressed to other peer IDs then really leave the process
+// (and fail when those peers cannot be reached); nil: every call is local.
+var rpcHost host.Host
+
 func newRecordingClient(r *recorder) (*rpc.Client, error) {
-	s := rpc.NewServer(nil, "c12")
-	c := rpc.NewClientWithServer(nil, "c12", s)
+	s := rpc.NewServer(rpcHost, "c12")
+	c := rpc.NewClientWithServer(rpcHost, "c12", s)
 	for name, svc := range map[string]interface{}{
 		"Cluster":       &clusterSvc{r},
 		"IPFSConnector": &ipfsSvc{r},
